@@ -21,11 +21,31 @@ SPEC = {
     "assumptions": [],
 }
 
-PP = "builder::pipeline::Pipeline::popen"
+PPUB = "builder::pipeline::Pipeline::popen"
+PP = PPUB
+
+
+import re
+_POPEN_TY = re.compile(r"popen::Popen(?![A-Za-z])")
+
+
+def is_popen_drop(fn, bb):
+    """block bb drops (and thereby waits for, unless detached) a value holding started Popens: a drop terminator on a place of such a
+    type, or a call of mem::drop on one"""
+    t = fn.blocks[bb]["term"]
+    if fn.blocks[bb].get("cleanup"):
+        return False
+    if t["k"] == "drop" and not t["p"]["proj"]:
+        return bool(_POPEN_TY.search(fn.locals[t["p"]["l"]]["ty"]))
+    if t["k"] == "call" and M.callee_str(t["f"]) == "std::mem::drop" and t["args"] and t["args"][0]["k"] in ("move", "copy") and not t["args"][0]["p"]["proj"]:
+        return bool(_POPEN_TY.search(fn.locals[t["args"][0]["p"]["l"]]["ty"]))
+    return False
 
 
 def run(ctx):
+    global PP
     prog = ctx.prog
+    PP = pipeline_spawner(prog) or PPUB     # the function holding the spawn loop: Pipeline::popen itself or a helper it delegates to
     pp = prog.one(PP)
     T = M.Terms(pp)
     loops = M.sccs(pp)
@@ -56,7 +76,29 @@ def run(ctx):
                      and pp.blocks[b]["term"]["p"]["l"] == ret_slot[1][1]]
             rets = [b for b in pp.return_blocks() if b in after]
             ok = bool(drops) and bool(rets) and all(dominated_by_blocks(pp, r, drops, start=e[1]) for r in rets)
-            ctx.ob("R14.1", "failure-drops-started-stages", ok, pp.loc(bb), "on the error path the vector of already started Popens must be dropped before returning (drops at %s)" % drops)
+            handed = False
+            if not ok and ret_slot is not None:
+                # alternative: the vector is handed, whole, to the caller inside the error value — then every caller drops it on its error path
+                Tx = M.Terms(pp, blocks=after)
+                moved = [(b2, si2, r2) for (b2, si2, v2, r2) in result_variants(pp, M.Explore(pp, start=e[1])) if v2 == "Err"
+                         and M.contains(Tx.operand(r2["ops"][0]), lambda u: u == ("local", ret_slot[1][1]) or (u[0] in ("local", "var") and len(u) > 1 and u[1] == ret_slot[1][1]))]
+                handed = bool(moved) and not drops
+                if handed:
+                    ok = True
+                    for cf, cbb, ct in callers_of(prog, pp.path):
+                        Tc = M.Terms(cf)
+                        cerr = try_err_edges(cf, Tc, lambda c: c[3] == cbb) + variant_edges(cf, Tc, lambda t_: t_[0] == "call" and t_[3] == cbb, 1, [0, 1], "std::result::Result<")
+                        # the drop-flag epilogue re-tests the same discriminant: keep the first test only
+                        cerr = [e_ for e_ in cerr if not any(e_[0] in cf.reachable(o_[1]) for o_ in cerr if o_ != e_)]
+                        okc = bool(cerr)
+                        for ce in cerr:
+                            aft = cf.reachable(ce[1])
+                            dr = [b for b in aft if is_popen_drop(cf, b)]
+                            rr = [b for b in cf.return_blocks() if b in aft]
+                            okc = okc and bool(dr) and bool(rr) and all(dominated_by_blocks(cf, r, dr, start=ce[1]) for r in rr)
+                        ctx.ob("R14.1", "caller-drops-started-stages@%s" % cf.path.split("::")[-1], okc, cf.loc(cbb),
+                               "%s receives the already started Popens with the error and must drop (wait for) them before it returns the error" % cf.path)
+            ctx.ob("R14.1", "failure-drops-started-stages", ok, pp.loc(bb), "on the error path the vector of already started Popens must be dropped before returning (drops at %s), or be handed whole to the caller with the error (%s)" % (drops, handed))
             # ... and not taken apart element by element: the first stage owns the pipeline's stdin pipe and must be
             # dropped (its stdin closed) before any later stage is waited for; Vec's own drop does first-to-last
             piecemeal = []
@@ -95,8 +137,88 @@ def run(ctx):
         ctx.ob("R14.3", "%s-via-popen-only" % term, PP in cl and not others, f.loc(0), "Pipeline::%s must start stages only through Pipeline::popen (other spawn sites: %s)" % (term, others))
     sc = prog.one("builder::pipeline::Pipeline::setup_communicate")
     Ts = M.Terms(sc)
-    oke = try_ok_edges(sc, Ts, lambda c: c[1] == PP)
+    oke = try_ok_edges(sc, Ts, lambda c: c[1] in (PP, PPUB)) + variant_edges(sc, Ts, lambda t_: t_[0] == "call" and t_[1] in (PP, PPUB), 0, [0, 1], "std::result::Result<")
     for bb, t in sc.calls_to(lambda f: M.callee_str(f) == "std::option::Option::<T>::take"):
         a = M.noref(Ts.operand(t["args"][0]))
         if a[0] == "field" and a[2] in ("stdin", "stdout"):
-            ctx.ob("R14.3", "setup_communicate.take-%s-after-success" % a[2], dominated_by_edges(sc, bb, oke), sc.loc(bb), "the stage's %s is taken out only after popen()? succeeded" % a[2])
+            ctx.ob("R14.3", "setup_communicate.take-%s-after-success" % a[2], dominated_by_edges(sc, bb, oke), sc.loc(bb), "the stage's %s is taken out only after the pipeline was started successfully" % a[2])
+
+    # ---- R14.5 no wait for started children while this frame still holds the read end of a pipe they write to ----------------
+    # (the wait for the already started stages happens wherever their Popens are dropped; a stage blocked writing more than a
+    # pipe-full to a pipe whose only reader is a descriptor parked in a local of the waiting frame never exits)
+    NOT_RUNNING = {"popen::Popen::create": "drops the handle it is constructing itself: Preparing, or Finished after the failed child was reaped (C07 R07.4)",
+                   "<popen::Popen as std::ops::Drop>::drop": "the wait itself"}
+    base = {p for p, f in prog.fns.items() if p not in NOT_RUNNING and any(is_popen_drop(f, b) for b in f.live_blocks())}
+    waitfns = set(base)
+    changed = True
+    while changed:
+        changed = False
+        for p, f in prog.fns.items():
+            if p in waitfns or p in NOT_RUNNING:
+                continue
+            if any(M.callee_names(t["f"]) & waitfns for _, t in f.calls()):
+                waitfns.add(p)
+                changed = True
+    ctx.floor("R14.5", "functions that may wait for started children by dropping them", len(base), 1)
+    PIPES = ("popen::os::make_pipe", "popen::make_pipe", "posix::pipe")
+    nheld = 0
+    for p, f in sorted(prog.fns.items()):
+        mk = [bb for bb, t in f.calls() if M.callee_str(t["f"]) in PIPES]
+        if not mk:
+            continue
+        Tf = M.Terms(f)
+        read_ends = []
+        for l in range(len(f.locals)):
+            if "std::fs::File" != f.locals[l]["ty"]:
+                continue
+            for a in M.alts(M.noref(Tf.local(l))):
+                if a[0] == "field" and a[2] == "0":
+                    b_ = M.strip(a[1])
+                    if b_[0] == "call" and b_[1] in PIPES:
+                        read_ends.append(l)
+        read_ends = sorted(set(read_ends))
+        if not read_ends:
+            continue
+        wps = [bb for bb in sorted(f.live_blocks()) if not f.blocks[bb].get("cleanup") and
+               (is_popen_drop(f, bb) or (f.blocks[bb]["term"]["k"] == "call" and M.callee_names(f.blocks[bb]["term"]["f"]) & waitfns))]
+        def mentions(bb, l):
+            blk = f.blocks[bb]
+            def opm(o):
+                return o.get("k") in ("copy", "move") and o["p"]["l"] == l
+            for s_ in blk["stmts"]:
+                if s_["k"] != "assign":
+                    continue
+                r_ = s_["r"]
+                if r_["k"] == "use" and opm(r_["op"]):
+                    return True
+                if r_["k"] in ("ref", "addr") and r_["p"]["l"] == l:
+                    return True
+                if r_["k"] == "agg" and any(opm(o) for o in r_["ops"]):
+                    return True
+            t_ = blk["term"]
+            if t_["k"] == "drop" and t_["p"]["l"] == l:
+                return True
+            if t_["k"] == "call" and any(opm(o) for o in t_["args"]):
+                return True
+            return False
+        named = [l for l in read_ends if f.locals[l].get("name")]
+        read_ends = named or read_ends
+        full = M.Explore(f)
+        for l in read_ends:
+            nheld += 1
+            for w in wps:
+                # blocks that can run after the wait point, following the drop flags (a flag-guarded drop of a value already moved is dead)
+                after = set()
+                for st_ in full.state_at.get(w, []):
+                    out_ = dict(full._step_state(w, st_))
+                    for x in f.succs(w):
+                        after |= M.Explore(f, start=x, init=out_).blocks
+                live = sorted(b for b in after if not f.blocks[b].get("cleanup") and mentions(b, l))
+                t_ = f.blocks[w]["term"]
+                what = M.callee_str(t_["f"]) if t_["k"] == "call" else "drop(%s)" % f.local_name(t_["p"]["l"])
+                ctx.ob("R14.5", "%s.%s-not-held-across:%s" % (p.split("::")[-1], f.local_name(l), what.split("::")[-1]), not live, f.loc(w),
+                       "%s can wait for already started children (it drops their Popens, or calls a function that does) while `%s` — the parent's read end of a pipe "
+                       "those children write to — is still held by this frame (used later at %s): a child blocked writing to that pipe never exits and the wait, "
+                       "hence the failed start, never returns" % (what, f.local_name(l), [f.loc(b) for b in live][:3]))
+    ctx.floor("R14.5", "parent-held pipe read ends examined", nheld, 1)
+
